@@ -181,6 +181,10 @@ func (r *Runner) Setup() {
 	if r.chance(0.2) {
 		names[0] = []string{"web-1", "a-0", "w"}[r.Rng.Intn(3)]
 	}
+	if len(names) == 2 && r.chance(0.4) {
+		// nested names: pod "web-1" of set "web" next to set "web-1" with pods "web-1-<n>", same selector
+		names[1] = names[0] + "-1"
+	}
 	r.Sets = names
 	for _, name := range names {
 		o := r.randSetOpts(name)
